@@ -183,7 +183,10 @@ impl<'a> B<'a> {
                     a.resize(l, json!("x"));
                     Value::Array(a)
                 } else if self.dev("member-nonarray") {
-                    self.r.pick(&[json!({"salt": "s"}), json!("str"), json!(5), json!(null)]).clone()
+                    // incl. a JSON STRING whose text is the well-formed disclosure array (serialised twice)
+                    let twice = json!(json!([salt, k, v]).to_string());
+                    let twice_ws = json!(format!(" {}", json!([salt, k, v])));
+                    self.r.pick(&[json!({"salt": "s"}), json!("str"), json!(5), json!(null), twice.clone(), twice, twice_ws]).clone()
                 } else if self.dev("name-nonstring") {
                     let nm = self.r.pick(&[json!(5), json!(null), json!(["a"]), json!({"a": 1}), json!(true)]).clone();
                     json!([salt, nm, v])
@@ -325,7 +328,8 @@ impl<'a> B<'a> {
                     a.resize(l, json!("x"));
                     Value::Array(a)
                 } else if self.dev("elem-nonarray") {
-                    self.r.pick(&[json!("str"), json!({"a": 1}), json!(null), json!(3)]).clone()
+                    let twice = json!(json!([salt, v]).to_string());
+                    self.r.pick(&[json!("str"), json!({"a": 1}), json!(null), json!(3), twice.clone(), twice]).clone()
                 } else {
                     json!([salt, v])
                 };
@@ -434,6 +438,11 @@ fn one_case(ctx: &Ctx, case: u64, l: &mut Local) {
                 payload["_sd_alg"] = json!("sha-256");
             }
         }
+    }
+    if r.chance(6) {
+        // nothing presented at all: every structural rule about the PAYLOAD still applies
+        discs.clear();
+        l.count("presented-no-disclosure");
     }
     r.shuffle(&mut discs);
     let forced_applied = force == "none" || force == "compose" || applied.contains(&force);
